@@ -178,6 +178,25 @@ def gen_cases(tier, rng):
                         prior = [{"cwd": ["v"], "op": "list", "dest": ""}]
                     cases.append({"op": "upload", "src": entries, "srcname": "srcname", "dest": dest, "write_into": wi, "cwd": cwd, "prior": prior,
                                   "remote_pre": [ent(["v"], "d", None)], "block": 8192, "fallback": rng.random() < 0.3})
+    # listing / removing / downloading after earlier operations of the same session (nothing remembered from before)
+    for src in (sh[3:] if tier != "quick" else rng.sample(sh[3:], 5)):
+        entries = [ent(p, k, c) for p, k, c in src]
+        if entries[0]["k"] != "d":
+            continue
+        for cwd in ([], ["w"]):
+            place = cwd + ["t"]
+            rpre = [ent(["v"], "d", None), ent(["v", "t"], "d", None), ent(["v", "t", "zz"], "f", [7])] + [ent(place + e["p"], e["k"], e["c"]) for e in entries]
+            for op in ("list", "remove", "download"):
+                for hist in ("listed-elsewhere", "listed-here", "removed-elsewhere"):
+                    if tier == "quick" and rng.random() < 0.5:
+                        continue
+                    prior = {"listed-elsewhere": [{"cwd": ["v"], "op": "list", "dest": "t"}], "listed-here": [{"cwd": cwd, "op": "list", "dest": "t"}],
+                             "removed-elsewhere": [{"cwd": ["v"], "op": "remove", "dest": "t"}]}[hist]
+                    base = {"cwd": cwd, "prior": prior, "remote_pre": rpre, "block": 8192, "fallback": rng.random() < 0.3, "src": entries, "srcname": "t"}
+                    if op == "download":
+                        cases.append(dict(base, op="download", source="t", dest="", write_into=False, local_pre=[]))
+                    else:
+                        cases.append(dict(base, op=op, dest="t"))
     for src in sh:
         entries = [ent(p, k, c) for p, k, c in src]
         if entries[0]["k"] != "d":
